@@ -95,6 +95,8 @@ func pathStrings() []string {
 		}
 	}
 	rec(nil, 0)
+	// wildcards (mget-style clients): a server that expands them must expand them inside the root
+	out = append(out, "*", "../*", "../../*", "/../../../*", "../../../*.txt", "a/../../*", "?", "../?*", "[a-z]*", "../[a-z0-9]*/*")
 	out = append(out, "", "/", "//", "....", "..;", "a..", "..a", "a/..../b", "../" + strings.Repeat("x", 255), strings.Repeat("../", 40) + "etc/passwd", "/" + strings.Repeat("../", 40) + "etc/passwd",
 		"a\\..\\..", "..\\..", "a/./../../..", "\x00", "a\x00/../..", "%2e%2e/%2e%2e", "..%2f..", "~", "~root", "a//..//..//..")
 	return out
@@ -168,7 +170,9 @@ func childDirect(o *core.Obs) {
 // ---- end-to-end ---------------------------------------------------------------------
 
 var argPaths = []string{"a", "b", "..", ".", "", "/", "a/b", "../..", "/a", "/..", "....", "a/../..", "../../secret.txt", "../secret.txt", "/../secret.txt", "../sibling", "../sibling/secret2.txt",
-	"..//..//secret.txt", "a/../../sibling/secret2.txt", "../", "../../", "/../../", "f.txt", "a/f.txt", "up.txt", "../up.txt", "../../up.txt", "./../up.txt", "newdir", "../newdir", "ROOTNAME-evil/secret3.txt", "../ROOTNAME-evil/secret3.txt", "../ROOTNAME", "../ROOTNAME/a"}
+	"..//..//secret.txt", "a/../../sibling/secret2.txt", "../", "../../", "/../../", "f.txt", "a/f.txt", "up.txt", "../up.txt", "../../up.txt", "./../up.txt", "newdir", "../newdir", "ROOTNAME-evil/secret3.txt", "../ROOTNAME-evil/secret3.txt", "../ROOTNAME", "../ROOTNAME/a",
+	// wildcards (mget-style clients): a server that expands them must expand them inside the root
+	"*", "../*", "../../*", "/../../../*", "../../*.txt", "a/../../*", "../?*", "../[a-z]*/*", "../../*/*"}
 
 type cmd struct {
 	Verb string `json:"verb"`
